@@ -2,7 +2,7 @@ import ast
 import inspect
 import textwrap
 from functools import cached_property
-from typing import AbstractSet, Callable, Collection, Dict, Set, Tuple
+from typing import AbstractSet, Callable, Dict, Set, Tuple
 
 Dependencies = AbstractSet[str]
 
@@ -41,26 +41,31 @@ def find_dependencies(func: Callable) -> Dependencies:
 cache: Dict[Tuple[type, Callable], Dependencies] = {}
 
 
-def find_all_dependencies(
-    cls: type, func: Callable, rec_guard: Collection[str] = ()
-) -> Dependencies:
+def _reachable_dependencies(
+    cls: type, func: Callable, visited: Set[Callable]
+) -> Set[str]:
+    visited.add(func)
+    dependencies = set(find_dependencies(func))
+    for attr in list(dependencies):
+        if not hasattr(cls, attr):
+            continue
+        member = getattr(cls, attr)
+        if isinstance(member, property):
+            member = member.fget
+        elif isinstance(member, cached_property):
+            member = member.func
+        if callable(member):
+            dependencies.remove(attr)
+            if member not in visited:
+                dependencies.update(_reachable_dependencies(cls, member, visited))
+    return dependencies
+
+
+def find_all_dependencies(cls: type, func: Callable) -> Dependencies:
     """Dependencies contains class variables (because they can be "fake" ones as in
     dataclasses)"""
+    # only the result of a whole traversal is cached: the one of a member met on the
+    # way is partial when members call each other
     if (cls, func) not in cache:
-        dependencies = set(find_dependencies(func))
-        for attr in list(dependencies):
-            if not hasattr(cls, attr):
-                continue
-            member = getattr(cls, attr)
-            if isinstance(member, property):
-                member = member.fget
-            elif isinstance(member, cached_property):
-                member = member.func
-            if callable(member):
-                dependencies.remove(attr)
-                if member in rec_guard:
-                    continue
-                rec_deps = find_all_dependencies(cls, member, {*rec_guard, member})
-                dependencies.update(rec_deps)
-        cache[cls, func] = dependencies
+        cache[cls, func] = _reachable_dependencies(cls, func, set())
     return cache[cls, func]
